@@ -173,6 +173,16 @@ fn singles(d: &mut Drv) {
             d.call("diag", || json!({"how": "trace", "lay": "c", "n": $n, "a": a}), || json!([c.trace()]));
             d.call("diag", || json!({"how": "counts", "lay": "r", "n": $n, "a": a}), || json!([r.row_count() as i32, r.col_count() as i32]));
             d.call("diag", || json!({"how": "counts", "lay": "c", "n": $n, "a": a}), || json!([c.row_count() as i32, c.col_count() as i32]));
+            // Display with format parameters (precision, sign, width): they apply to every element in BOTH layouts.
+            // Elements are odd multiples of 1/8 (no rounding ties at one decimal); each printed token is logged
+            // as (value * 1000, token length), so a dropped precision ("1.375" for "1.4") or width is visible.
+            let e8: Vec<Vec<i32>> = (0..$n).map(|i| (0..$n).map(|j| (2 * (10 * (i as i32 + 1) + j as i32 + 1) + 1) * if (i + j) % 3 == 1 { -1 } else { 1 }).collect()).collect();
+            let f8: Vec<Vec<f64>> = e8.iter().map(|r| r.iter().map(|x| *x as f64 / 8.0).collect()).collect();
+            let (rf, cf) = (<rm::$M<f64> as crate::mat::MatT<f64>>::from_rows(&f8), <cm::$M<f64> as crate::mat::MatT<f64>>::from_rows(&f8));
+            let toks = |s: String| -> Value { let t = s.trim().trim_start_matches('(').trim_end_matches(')').to_string();
+                Value::Array(t.lines().map(|l| Value::Array(l.split_whitespace().map(|x| json!([(x.parse::<f64>().unwrap() * 1000.0).round() as i64, x.len()])).collect())).collect()) };
+            d.call("display_fmt", || json!({"lay": "r", "n": $n, "a": e8, "fmt": "+8.1"}), || toks(format!("{:+8.1}", rf)));
+            d.call("display_fmt", || json!({"lay": "c", "n": $n, "a": e8, "fmt": "+8.1"}), || toks(format!("{:+8.1}", cf)));
         }};
     }
     one!(Mat2, 2, Vec2); one!(Mat3, 3, Vec3); one!(Mat4, 4, Vec4);
